@@ -24,6 +24,7 @@ import (
 	"github.com/gardenbed/emerge/internal/ebnf/parser/spec"
 	"github.com/gardenbed/emerge/internal/generate/golang"
 	"github.com/gardenbed/emerge/zz_verif/simrt"
+	simctl "github.com/moorara/algo/zz_simctl"
 )
 
 type Engine struct {
@@ -408,6 +409,7 @@ type emitted struct {
 
 func (e Engine) Run(t *simrt.Tape, c simrt.Case, x *simrt.Ctx) *simrt.Result {
 	res := simrt.NewResult()
+	simctl.Begin(simctl.Sorted, c.Seed) // the dependency's clock-seeded PRNGs follow the case seed: exact replay
 	t0 := time.Now()
 	lap := func(what string) {
 		if os.Getenv("VERIF_DEBUG") != "" {
@@ -557,6 +559,30 @@ func (e Engine) Run(t *simrt.Tape, c simrt.Case, x *simrt.Ctx) *simrt.Result {
 				b.WriteString("   ")
 			}
 			add(em, append([]byte(nil), b.Bytes()...), "random input", "shape:"+shape)
+		}
+		// one long lexeme: more characters than one block of the emitted reader's chunked stack and
+		// than one buffer half, still within what the two halves can hold
+		for tries := 0; tries < 30; tries++ {
+			w := em.a.walk(t, false)
+			if len(w) == 0 || len(w) > 3 {
+				continue
+			}
+			ch := w[len(w)-1:]
+			if ch[0] >= 0x80 {
+				continue
+			}
+			// does the automaton loop on that character? then w+ch*k is one lexeme
+			long := w + strings.Repeat(ch, 40)
+			if toks, bad := em.a.munch([]byte(long)); bad || len(toks) != 1 || toks[0].L != long {
+				continue
+			}
+			for _, n := range []int{em.B - 1, em.B, em.B + 1, em.B + em.B/2} {
+				for _, lead := range []string{"", " ", strings.Repeat(" ", 100)} {
+					in := lead + w + strings.Repeat(ch, n-len(w)) + " " + w + "\n"
+					add(em, []byte(in), fmt.Sprintf("long lexeme of %d characters after %d blanks", n, len(lead)), fmt.Sprintf("long:%s:%d:%d", em.pkg, n, len(lead)))
+				}
+			}
+			break
 		}
 		// boundary alignments: a unit of (lexeme + separator) is repeated to fill, a probe lexeme is
 		// placed so that its first / last / look-ahead byte lands on k*B+d
